@@ -21,7 +21,7 @@ var Plans = map[string][]PlanItem{
 	"C09": {{Scen: "concurrent", Quick: 4000, Thorough: 300000}},
 	"C14": {{Scen: "build-history", Quick: 2500, Thorough: 150000}},
 	"C10": {{Scen: "interop", Quick: 2500, Thorough: 150000}, {Scen: "golden", Quick: 400, Thorough: 2000}},
-	"C11": {{Scen: "world", Quick: 3000, Thorough: 150000}},
+	"C11": {{Scen: "world", Quick: 3000, Thorough: 150000}, {Scen: "persist-fault", Quick: 48, Thorough: 2000}},
 	"C16": {{Scen: "world", Quick: 4000, Thorough: 250000}},
 }
 
